@@ -79,6 +79,11 @@ func genC11Evm(g *G) {
 				v = svJ(rndQuote(g, true))
 			case 2:
 				v = svJ(&llo.TimestampedStreamValue{ObservedAtNanoseconds: rndTs(g), StreamValue: llo.ToDecimal(rndDec(g))})
+			case 3:
+				// prices at the edges of what the fee arithmetic sees: far below the 18 decimal places a fee carries,
+				// exactly at them, zero, negative, huge
+				v = svJ(llo.ToDecimal([]decimal.Decimal{decimal.New(int64(1+g.R.Intn(9)), -19), decimal.New(1, -18), decimal.New(int64(1+g.R.Intn(99)), int32(-20-g.R.Intn(30))),
+					decimal.New(5, -1), decimal.Zero, decimal.New(-1, -19), decimal.New(int64(1+g.R.Intn(9)), int32(19+g.R.Intn(30))), decimal.New(999999999999999999, -18)}[g.R.Intn(8)]))
 			default:
 				v = svJ(llo.ToDecimal(decimal.New(int64(g.R.Intn(2000)-100), int32(g.R.Intn(3)-1))))
 			}
